@@ -119,8 +119,12 @@ Definition ins_descr (column count : Z) (c : Cols.col) : Cols.col :=
   if Cols.c_max c <? column then c
   else if column <=? Cols.c_min c then with_range c (Cols.c_min c + count) (Cols.c_max c + count)
   else with_range c (Cols.c_min c) (Cols.c_max c + count).
+(* the validation insert_columns performs before (count > 0; since 3e01966 also: the column is on
+   the grid, as in delete_columns); a refused call leaves the descriptors as they are *)
 Definition insert_columns_descrs (column count : Z) (cs : Cols.cols) : outcome Cols.cols :=
-  if count <=? 0 then Err else Ok (map (ins_descr column count) cs).
+  if count <=? 0 then Err
+  else if negb ((1 <=? column) && (column <=? LAST_COLUMN)) then Err
+  else Ok (map (ins_descr column count) cs).
 
 (* ---- operations ---------------------------------------------------------------------------------------- *)
 Fixpoint upd_nth {A} (n : nat) (f : A -> A) (l : list A) : list A :=
